@@ -107,6 +107,27 @@ func hasStmt(n ast.Node, text string) bool {
 	return ok
 }
 
+// litField: the value of field `key` in the `&frame{…}` literal a function returns ("" if there is not exactly one).
+func litField(fd *ast.FuncDecl, key string) string {
+	var vals []string
+	ast.Inspect(fd, func(x ast.Node) bool {
+		cl, ok := x.(*ast.CompositeLit)
+		if !ok || exprText(cl.Type) != "frame" {
+			return true
+		}
+		for _, e := range cl.Elts {
+			if kv, ok := e.(*ast.KeyValueExpr); ok && exprText(kv.Key) == key {
+				vals = append(vals, exprText(kv.Value))
+			}
+		}
+		return true
+	})
+	if len(vals) != 1 {
+		return ""
+	}
+	return vals[0]
+}
+
 func boolFact(ok bool) string {
 	if ok {
 		return "true"
@@ -157,7 +178,9 @@ func closureTables(repo string, cfg *ast.FuncDecl, fsetRun *token.FileSet, run *
 	} else {
 		tabs = append(tabs, common.HashTable(fset, f, [][2]string{{"", "newFrame"}, {"", "newCallFrame"}, {"frame", "clone"}}))
 		// newCallFrame(anc, length) must be newFrame(anc, length, …): the ancestor is the first argument
-		if nc := common.FindFunc(f, "", "newCallFrame"); nc == nil || !hasStmt(nc, "f := newFrame(anc, length, root.runid())") {
+		// (since dc95f3e it builds the frame itself: `&frame{anc: anc, …, data: make([]reflect.Value, length), …}`)
+		if nc := common.FindFunc(f, "", "newCallFrame"); nc == nil ||
+			!(hasStmt(nc, "f := newFrame(anc, length, root.runid())") || (litField(nc, "anc") == "anc" && litField(nc, "data") == "make([]reflect.Value, length)")) {
 			newCallFrameOK = false
 		}
 	}
@@ -201,7 +224,8 @@ func closureTables(repo string, cfg *ast.FuncDecl, fsetRun *token.FileSet, run *
 		case len(lits) != 1:
 			fact("getFunc clones the frame", fmt.Sprintf("unrecognised: %d closures in getFunc", len(lits)))
 		case !hasStmt(lits[0], "fr2 := newFrame(fr, len(n.types), fr.runid())") &&
-			!(newCallFrameOK && hasStmt(lits[0], "fr2 := newCallFrame(fr, len(n.types))")):
+			!(newCallFrameOK && (hasStmt(lits[0], "fr2 := newCallFrame(fr, len(n.types))") ||
+				hasStmt(lits[0], "fr2 := newCallFrame(n.interp, fr, len(n.types), fr.getEpoch())"))):
 			fact("getFunc clones the frame", "unrecognised: the call frame is not newFrame(fr, …) / newCallFrame(fr, …)")
 		default:
 			fact("getFunc clones the frame", boolFact(hasStmt(lits[0], "fr := f.clone()")))
